@@ -10,6 +10,7 @@
 //        s  co_await GuardSticky() ... co_await guard.Unlock()
 //        t  TryLock()              ... UnlockHere()        (round skipped when the try fails)
 //        y  TryGuard()             ... scope exit
+//        z  deferred guard, guard.TryLock() ... scope exit
 // Inside the critical section: "enter <i>:<last writer>", a plain write of the shared cell, one visible operation on a
 // scratch atomic (so that another worker can run while the section is open), "leave <i>".
 #include "common.hpp"
@@ -82,6 +83,14 @@ yaclib::Future<> Worker(M& m, Env& env, int id, std::string prog) {
       case 'y': {
         auto g = m.TryGuard();
         if (g) {
+          Section(env, id);
+        } else {
+          vrt::Obs("tryfail", std::to_string(id));
+        }
+      } break;
+      case 'z': {
+        yaclib::UniqueGuard<M> g{m, std::defer_lock};
+        if (g.TryLock()) {
           Section(env, id);
         } else {
           vrt::Obs("tryfail", std::to_string(id));
